@@ -1,5 +1,5 @@
 (** C01 — the theorems that Properties/C01.v states, per implementation. *)
-From Algo.C01 Require Import Model Spec SpecFacts ProofsQuery ProofsRun ProofsBST.
+From Algo.C01 Require Import Model Spec SpecFacts ProofsQuery ProofsRun ProofsBST ProofsAVL.
 From Coq Require Import Lia Permutation.
 Open Scope Z_scope.
 Arguments inorder {K V} n : simpl never.
@@ -65,5 +65,32 @@ Section All.
     o <> OtherOrder ->
     exists t, build cmp BST h = Ok t /\ Permutation (trav_list o t) (s_build cmp h).
   Proof. intros. eapply traversal_generic; [apply (bst_refines cmp TO)|apply forallb_true|auto]. Qed.
+
+  Theorem avl_run_ok (ops : list (op K V)) :
+    forallb abstract_op ops = true -> run cmp eqv AVL ops = map Ok (spec_run cmp eqv ops).
+  Proof.
+    intros HA. eapply run_ok; eauto using avl_refines. apply all_allowed.
+  Qed.
+
+  Theorem avl_firstmatch (h : list (mut K V)) p :
+    exists t, build cmp AVL h = Ok t /\
+      match first_match p t with
+      | Some e => In e (s_build cmp h) /\ holds p e = true
+      | None => forall e, In e (s_build cmp h) -> holds p e = false
+      end.
+  Proof. eapply firstmatch_generic; [apply (avl_refines cmp TO)|apply forallb_true]. Qed.
+
+  Theorem avl_traversal (h : list (mut K V)) o :
+    o <> OtherOrder ->
+    exists t, build cmp AVL h = Ok t /\ Permutation (trav_list o t) (s_build cmp h).
+  Proof. intros. eapply traversal_generic; [apply (avl_refines cmp TO)|apply forallb_true|auto]. Qed.
+
+  (** the AVL invariant holds after every history *)
+  Theorem avl_build_inv (h : list (mut K V)) :
+    exists t, build cmp AVL h = Ok t /\ inorder t = s_build cmp h /\ avl_inv t.
+  Proof.
+    destruct (build_ok cmp AVL _ _ (avl_refines cmp TO) h (forallb_true h)) as [t [E1 [E2 [_ I]]]].
+    exists t. auto.
+  Qed.
 
 End All.
